@@ -157,10 +157,13 @@ BYTE_INFO={}
 def allowed(x):
     """set of byte values a symbolic byte term is known to range over (hex digits, decimal digits ...) or None"""
     if isinstance(x,int): return frozenset([x])
-    try: return BYTE_INFO.get(x.get_id())
+    try:
+        r=BYTE_INFO.get(x.get_id())
+        return r[1] if r is not None else None
     except Exception: return None
 def note_allowed(x,vals):
-    if not isinstance(x,int): BYTE_INFO[x.get_id()]=frozenset(vals)
+    # the term is stored with its id so that the id cannot be recycled for another term while the entry lives
+    if not isinstance(x,int): BYTE_INFO[x.get_id()]=(x,frozenset(vals))
     return x
 
 def bterm(x):
